@@ -20,7 +20,7 @@ PlanQuick == Cross \o <<
   E("cssb",   {1}, {" "}, 3, 2),
   E("json",   {1, 2, 3}, {" "}, 3, 1),
   E("smap",   {1, 2, 3, 4}, {" "}, 2, 1),
-  E("cfg",    {1, 2, 3, 4, 5, 6, 7}, {" "}, 2, 1),
+  E("cfg",    {1, 2, 3, 4, 5, 6, 7, 8}, {" "}, 2, 1),
   E("jscore", {2, 3, 4, 5, 6, 7, 8}, {" "}, 2, 1),
   E("jsdecl", {2, 3, 4, 5, 6, 7, 8}, {" "}, 2, 1),
   E("jslit",  {2, 3, 6}, {" "}, 2, 1),
@@ -39,7 +39,7 @@ PlanThorough == Cross \o <<
   E("cssb",   {1}, {" "}, 4, 2),
   E("json",   {1, 2, 3}, {" "}, 5, 2),
   E("smap",   {1, 2, 3, 4}, {" "}, 3, 1),
-  E("cfg",    {1, 2, 3, 4, 5, 6, 7}, {" "}, 3, 1),
+  E("cfg",    {1, 2, 3, 4, 5, 6, 7, 8}, {" "}, 3, 1),
   E("jscore", {2, 3, 4, 5, 6, 7, 8}, {" "}, 3, 1),
   E("jsdecl", {2, 3, 4, 5, 6, 7, 8}, {" "}, 3, 1),
   E("jslit",  {2, 3, 6}, {" ", ""}, 3, 1),
